@@ -128,6 +128,13 @@ def run(ctx):
                 if any(parts[:len(p)] == p for p in restricted):
                     ctx.fail("restricted:" + r["chain"], "%s at %s is not available across the declared dependency range" % (r["chain"], r["loc"]),
                              {"kind": "restricted", **r})
+        removed = _removed_methods()
+        for a, loc in data.get("method_names", {}).items():
+            if a in removed:
+                ctx.fail("method:" + a, "attribute .%s used at %s was removed from numpy/h5py/builtins inside the declared range" % (a, loc),
+                         {"kind": "method", "name": a, "loc": loc})
+        for p in data.get("unpackaged_dirs", []):
+            ctx.fail("unpackaged:" + p, "directory %s contains modules but is not listed in setup.py packages" % p, {"kind": "unpackaged", "dir": p})
         for u in data["undeclared"]:
             ctx.fail("undeclared:" + u[0], "module %s imported at %s is neither stdlib, declared nor a guarded documented optional" % tuple(u),
                      {"kind": "undeclared", "module": u[0], "loc": u[1]})
@@ -140,6 +147,13 @@ def _restricted():
     src = common.strip_coq_comments(src)
     body = src.split("restricted", 1)[1].split(":=", 1)[1].split("].", 1)[0]
     return [re.findall(r'"([^"]+)"', m) for m in re.findall(r"\[([^\[\]]+)\]", body)]
+
+
+def _removed_methods():
+    import re
+    src = common.strip_coq_comments(open(os.path.join(COQ, "Lib", "CompatTable.v")).read())
+    body = src.split("removed_methods", 1)[1].split(":=", 1)[1].split("].", 1)[0]
+    return set(re.findall(r'"([^"]+)"', body))
 
 
 def replay(ctx, obj):
